@@ -1,1 +1,157 @@
-harnesses! {}
+//! C15 — interpolation and densification along a line, with the metric space as the symbolic
+//! environment (S-METRIC): the algorithms are generic over the metric, so the harness supplies an
+//! exact "rail" metric (points on the x axis, distance = |dx|) in which every expected value is an
+//! exact dyadic number.  `f32`.
+use crate::Src;
+use geo::line_measures::{Densify, Distance, InterpolateLine, InterpolatePoint, Length};
+use geo_types::{coord, Line, LineString, Point};
+
+pub struct Rail;
+
+impl Distance<f32, Point<f32>, Point<f32>> for Rail {
+    fn distance(&self, a: Point<f32>, b: Point<f32>) -> f32 {
+        (a.x() - b.x()).abs()
+    }
+}
+
+impl InterpolatePoint<f32> for Rail {
+    fn point_at_distance_between(&self, s: Point<f32>, e: Point<f32>, d: f32) -> Point<f32> {
+        let dir = if e.x() >= s.x() { 1.0 } else { -1.0 };
+        Point::new(s.x() + dir * d, 0.0)
+    }
+    fn point_at_ratio_between(&self, s: Point<f32>, e: Point<f32>, r: f32) -> Point<f32> {
+        Point::new(s.x() + (e.x() - s.x()) * r, 0.0)
+    }
+    fn points_along_line(&self, s: Point<f32>, e: Point<f32>, max: f32, include_ends: bool) -> impl Iterator<Item = Point<f32>> {
+        let _ = (e, max, include_ends);
+        core::iter::once(s)
+    }
+}
+
+/// vertex abscissae k/2, k in -8..=8
+fn half<S: Src>(s: &mut S) -> i32 {
+    s.range(-8, 8)
+}
+fn px(k: i32) -> Point<f32> {
+    Point::new(k as f32 * 0.5, 0.0)
+}
+
+/// exact walk in sixteenths: position (in 1/16) at arc length t16 from the start of ks
+fn walk16(ks: &[i32], t16: i32) -> i32 {
+    let mut rem = t16;
+    let mut i = 0;
+    while i + 1 < ks.len() {
+        let len = 8 * (ks[i + 1] - ks[i]).abs();
+        if len < rem {
+            rem -= len;
+        } else {
+            let sign = if ks[i + 1] >= ks[i] { 1 } else { -1 };
+            return 8 * ks[i] + sign * rem;
+        }
+        i += 1;
+    }
+    8 * ks[ks.len() - 1]
+}
+
+pub fn linestring_ratio<S: Src>(s: &mut S, nseg: usize) {
+    let all = [half(s), half(s), half(s), half(s)];
+    let ks = &all[..nseg + 1];
+    let mut v = Vec::with_capacity(nseg + 1);
+    for k in ks {
+        v.push(coord! { x: *k as f32 * 0.5, y: 0.0 });
+    }
+    let ls = LineString::new(v);
+    let j = s.range(-16, 16); // ratio j/8
+    let r = j as f32 / 8.0;
+    let mut total = 0; // sum |dk|
+    let mut i = 0;
+    while i < nseg {
+        total += (ks[i + 1] - ks[i]).abs();
+        i += 1;
+    }
+    assert!(Rail.length(&ls) == total as f32 * 0.5, "length of the line string is not the sum of its segment lengths");
+    let jc = j.max(0).min(8);
+    let want16 = walk16(ks, jc * total);
+    let got = Rail.point_at_ratio_from_start(&ls, r);
+    assert!(got.is_some(), "point_at_ratio_from_start of a non-empty line string is None");
+    assert!(got.unwrap().x() * 16.0 == want16 as f32, "point_at_ratio_from_start is not at arc length ratio*length (clamped) from the start");
+    let back = Rail.point_at_ratio_from_end(&ls, 1.0 - r);
+    assert!(back.is_some() && back.unwrap().x() == got.unwrap().x(), "point_at_ratio_from_end(1-r) differs from point_at_ratio_from_start(r)");
+    let d = r * (total as f32 * 0.5);
+    let byd = Rail.point_at_distance_from_start(&ls, d);
+    assert!(byd.is_some() && byd.unwrap().x() == got.unwrap().x(), "point_at_distance_from_start(r*length) differs from the ratio form");
+    let byde = Rail.point_at_distance_from_end(&ls, (total as f32 * 0.5) - d);
+    assert!(byde.is_some() && byde.unwrap().x() == got.unwrap().x(), "point_at_distance_from_end(length - d) differs from point_at_distance_from_start(d)");
+    vcover!(j < 0, "negative ratio (clamped to the start)");
+    vcover!(j > 8, "ratio beyond the end (clamped)");
+    if nseg >= 2 {
+        vcover!(ks[1] == ks[0] && total > 0, "zero-length first segment");
+        vcover!((ks[1] - ks[0]) * (ks[2] - ks[1]) < 0, "back-tracking segments");
+        vcover!(jc * total == 8 * (ks[1] - ks[0]).abs() && j > 0 && j < 8 && total > 0, "target exactly at an inner vertex");
+    }
+    core::mem::forget(ls);
+}
+
+pub fn line_forms<S: Src>(s: &mut S) {
+    let (a, b) = (half(s), half(s));
+    let l = Line::new(px(a).0, px(b).0);
+    let ls = LineString::new(vec![px(a).0, px(b).0]);
+    let j = s.range(-16, 16);
+    let r = j as f32 / 8.0;
+    let p = Rail.point_at_ratio_from_start(&l, r);
+    let q = Rail.point_at_ratio_from_start(&ls, r);
+    assert!(q.is_some() && q.unwrap().x() == p.x(), "Line and 2-point LineString disagree (ratio from start)");
+    let pe = Rail.point_at_ratio_from_end(&l, 1.0 - r);
+    assert!(pe.x() == p.x(), "Line: from_end(1-r) differs from from_start(r)");
+    let jc = j.max(0).min(8);
+    assert!(p.x() * 16.0 == (8 * a + (b - a) * jc) as f32, "Line: point_at_ratio_from_start is not start + clamp(r)*(end-start)");
+    let len = (b - a).abs() as f32 * 0.5;
+    let pd = Rail.point_at_distance_from_start(&l, r * len);
+    assert!(pd.x() == p.x(), "Line: distance form differs from the ratio form");
+    let e: LineString<f32> = LineString::new(vec![]);
+    assert!(Rail.point_at_ratio_from_start(&e, r).is_none(), "empty line string must give None");
+    core::mem::forget(ls);
+}
+
+/// densify a Line into exactly n pieces (n concrete, D and max symbolic)
+pub fn densify_line<S: Src>(s: &mut S, n: usize, m_fixed: Option<i32>) {
+    let (a, b) = (half(s), half(s));
+    let m = match m_fixed {
+        Some(m) => m,
+        None => s.range(1, 16), // max = m/2
+    };
+    let dk = (b - a).abs();
+    // ceil(D/max) == n   <=>   (n-1)*m < dk <= n*m   (n >= 1; dk == 0 gives 0 pieces)
+    vassume!(dk > 0 && (n as i32 - 1) * m < dk && dk <= n as i32 * m);
+    let l = Line::new(px(a).0, px(b).0);
+    let out = Rail.densify(&l, m as f32 * 0.5);
+    let v = &out.0;
+    assert!(v.len() == n + 1, "densify does not produce ceil(D/max) pieces");
+    assert!(v[0] == px(a).0 && v[n] == px(b).0, "densify does not keep the original end points in order");
+    let maxf = m as f32 * 0.5;
+    let mut i = 0;
+    while i < n {
+        let step = (v[i + 1].x - v[i].x).abs();
+        assert!(step <= maxf * 1.0001, "densify produced a segment longer than max");
+        assert!((v[i + 1].x - v[i].x) * ((b - a) as f32) > 0.0, "densify points are not ordered along the segment");
+        i += 1;
+    }
+    vcover!(dk == n as i32 * m, "D is an exact multiple of max");
+    vcover!(b < a, "segment pointing in the negative direction");
+    core::mem::forget(out);
+}
+
+harnesses! {
+    #[kani::unwind(6)] fn c15_linestring_ratio_s1(s) { linestring_ratio(s, 1) }
+    #[kani::unwind(6)] fn c15_linestring_ratio_s2(s) { linestring_ratio(s, 2) }
+    #[kani::unwind(6)] fn c15_linestring_ratio_s3(s) { linestring_ratio(s, 3) }
+    #[kani::unwind(6)] fn c15_line_forms(s) { line_forms(s) }
+    #[kani::unwind(6)] fn c15_densify_line_n1(s) { densify_line(s, 1, Some(3)) }
+    #[kani::unwind(6)] fn c15_densify_line_n2(s) { densify_line(s, 2, Some(3)) }
+    #[kani::unwind(6)] fn c15_densify_line_n3(s) { densify_line(s, 3, Some(2)) }
+    #[kani::unwind(7)] fn c15_densify_line_n4(s) { densify_line(s, 4, Some(2)) }
+    #[kani::unwind(6)] fn c15_sanity_must_fail(s) {
+        line_forms(s);
+        assert!(false, "sanity twin reached its end");
+    }
+}
